@@ -24,7 +24,7 @@ theorem updApp_group_back {apps : List App} {a a' : App} (ha : a ∈ apps) (hg :
   · exact ⟨x, hx, rfl⟩
   · exact ⟨a, ha, hg.symm⟩
 
-theorem hasGroup_prim {c c' : Cell} (hc : HasGroup c) (hp : Prim c c') : HasGroup c' := by
+theorem hasGroup_lprim {c c' : Cell} {lab : Lab} (hc : HasGroup c) (hp : LPrim lab c c') : HasGroup c' := by
   cases hp with
   | put h =>
     rcases serverPut_shape h with ⟨_, rfl⟩ | ⟨_, a, s, anc, ha, _, _, _, _, _, happs, _, hgrps, _, _⟩
@@ -67,13 +67,24 @@ theorem hasGroup_prim {c c' : Cell} (hc : HasGroup c) (hp : Prim c c') : HasGrou
               refine hasGroup_of (c := c) (updApp_group_back (a' := { a with identity := some k }) (app?_mem ha) rfl) ?_ hc
               simp only [Cell.setApp, Cell.setGrp]
               exact map_upd_keys (·.id) c.groups { grp with avail := grp.avail.filter (· ≠ k) }
-  | @appMeta a a' ha hid _ hi hg =>
-    exact hasGroup_of (updApp_group_back (a' := a') (app?_mem ha) hg) rfl hc
-  | @dropDangling a sid ha _ _ =>
-    exact hasGroup_of (updApp_group_back (a' := { a with server := none, evicted := true }) (app?_mem ha) rfl) rfl hc
-  | @forgetIdentity a k g grp ha _ _ _ _ =>
-    exact hasGroup_of (updApp_group_back (a' := { a with identity := none }) (app?_mem ha) rfl) rfl hc
+  | appMeta ha _ _ _ hg =>
+    exact hasGroup_of (c := c) (updApp_group_back (app?_mem ha) hg) rfl hc
+  | ghost ha =>
+    exact hasGroup_of (c := c) (updApp_group_back (app?_mem ha) rfl) rfl hc
+  | dropDangling ha _ _ =>
+    exact hasGroup_of (c := c) (updApp_group_back (app?_mem ha) rfl) rfl hc
+  | forgetIdentity ha _ _ _ _ =>
+    exact hasGroup_of (c := c) (updApp_group_back (app?_mem ha) rfl) rfl hc
   | tree => exact hasGroup_of (c := c) (fun x hx => ⟨x, hx, rfl⟩) rfl hc
+  | clearEv =>
+    refine hasGroup_of (c := c) ?_ rfl hc
+    intro x hx
+    obtain ⟨y, hy, rfl⟩ := List.mem_map.mp hx
+    exact ⟨y, hy, rfl⟩
+
+theorem hasGroup_prim {c c' : Cell} (hc : HasGroup c) (hp : Prim c c') : HasGroup c' := by
+  obtain ⟨lab, hp⟩ := hp
+  exact hasGroup_lprim hc hp
 
 theorem hasGroup_reach {c c' : Cell} (hc : HasGroup c) (h : Reach c c') : HasGroup c' :=
   h.induct (fun _ _ hc hp => hasGroup_prim hc hp) hc
@@ -345,12 +356,12 @@ theorem invId2_step {c c' : Cell} {op : Op} (hc : InvId2 c) (hok : OpOkId c op) 
       have tail : ∀ c1 : Cell, InvId2 c1 → ∀ c2, releaseIdentity c1 aid = .ok c2 →
           InvId2 { c2 with apps := c2.apps.filter (fun x => x.id ≠ aid) } := by
         intro c1 hc1 c2 h2
-        exact invId2_dropApp (invId2_reach hc1 (Reach.single (.release h2))) aid
+        exact invId2_dropApp (invId2_reach hc1 (Reach.single ⟨_, .release h2⟩)) aid
       split at h
       · split at h
         · simp only [bind_ok, pure_ok] at h
           obtain ⟨c1, h1, c2, h2, rfl⟩ := h
-          exact tail c1 (invId2_reach hc (Reach.single (.remove h1))) c2 h2
+          exact tail c1 (invId2_reach hc (Reach.single ⟨_, .remove h1⟩)) c2 h2
         · simp only [bind_ok, pure_ok] at h
           obtain ⟨c1, rfl, c2, h2, rfl⟩ := h
           exact tail c hc c2 h2
@@ -463,7 +474,7 @@ theorem invId2_step {c c' : Cell} {op : Op} (hc : InvId2 c) (hok : OpOkId c op) 
   | serverPut aid sid =>
     simp only [step, bind_ok, pure_ok] at h
     obtain ⟨⟨c1, b⟩, h1, rfl⟩ := h
-    exact invId2_reach hc (Reach.single (.put h1))
+    exact invId2_reach hc (Reach.single ⟨_, .put h1⟩)
   | serverRestore aid sid e =>
     simp only [step, bind_ok, pure_ok] at h
     obtain ⟨⟨c1, b⟩, h1, rfl⟩ := h
